@@ -1163,9 +1163,9 @@ Proof.
       apply cntk_zero. intros x Hx E. unfold UV in Hx. apply in_map_iff in Hx. destruct Hx as (u & Eu & Hu). subst x. unfold uk in E. inversion E as [[E1 E2]].
       pose proof (Hfr u Hu). lia.
   - (* MQBind *) destruct (alookup _ _ _); [|exact Hn]. destruct (seqb ex ""); [exact Hn|].
-    destruct (queue_found s q); [|exact Hn]. destruct (locked _ _); [exact Hn|]. destruct (bad_xmatch _); [exact Hn|]. cbn [fst].
+    destruct (queue_found s q); [|exact Hn]. destruct (locked _ _); [exact Hn|]. destruct (bad_xmatch _); [exact Hn|]. destruct (extype_eqb _ ExTopic && bad_pattern _)%bool; [exact Hn|]. cbn [fst].
     eapply CN_frame; [| | | |exact Hn]; reflexivity.
-  - destruct (alookup _ _ _); [|exact Hn]. destruct (queue_found s q); [|exact Hn]. destruct (locked _ _); [exact Hn|]. destruct (bad_xmatch _); [exact Hn|]. cbn [fst].
+  - destruct (alookup _ _ _); [|exact Hn]. destruct (queue_found s q); [|exact Hn]. destruct (locked _ _); [exact Hn|]. destruct (bad_xmatch _); [exact Hn|]. destruct (extype_eqb _ ExTopic && bad_pattern _)%bool; [exact Hn|]. cbn [fst].
     eapply CN_frame; [| | | |exact Hn]; reflexivity.
   - (* MQPurge *)
     destruct (queue_found s q) as [qu|] eqn:Ef; [|exact Hn]. apply queue_found_get in Ef. destruct (locked _ _); [exact Hn|]. cbn [fst].
